@@ -59,6 +59,9 @@ def cieEdge? [Angle α] {β : Type} [Scalar β] [ViaF64 α β] (src dst : String
 def hueScale : V3 α := ⟨360.0, 1.0, 1.0⟩
 
 def stripSimd (cfg : String) : String × Bool :=
+  -- fast path, same result (`splitOn` of a string without the separator is `[cfg]`): `String.splitOn` does not reduce in the
+  -- kernel, `toList.contains` does, so the whole-route theorems (`PaletteProofs/C01_Whole*.lean`) can evaluate the dispatch
+  if !cfg.toList.contains '+' then (cfg, false) else
   match cfg.splitOn "+" with
   | [a, "simd"] => (a, true)
   | _ => (cfg, false)
